@@ -714,6 +714,30 @@ fn record(seed: u64, tier: &str, out: &str) {
     println!("{}", json!({"events": events, "by_kind": counts, "tally": tally, "fonts_selected": selected.len()}));
 }
 
+/// Not part of the check: what allsorts does with an hmtx transform next to a null-transformed glyf
+/// (unusual input, reported to C01). Prints the outcome.
+fn probe() {
+    let tri = |d: i16| GlyphRec { kind: Kind::Simple, ends: vec![2], pts: vec![(10 + d, 0, true), (300, 40, true), (150, 400, true)], instr: vec![], bbox: [10 + d, 0, 300, 400], comps: vec![] };
+    let f = synth::AbstractFont { glyphs: vec![GlyphRec::empty(), tri(0), tri(5)], nhm: 1, adv: vec![500, 500, 500], lsb: vec![0, 10, 15] };
+    let src = synth::build(&f, false, 0, 0);
+    let tables: Vec<DirTable> = src
+        .tables
+        .iter()
+        .map(|(tag, d)| {
+            let name = tag_str(*tag);
+            if name == "hmtx" {
+                let x = enc::enc_hmtx(3, 3, 1, &f.adv, &f.lsb);
+                DirTable { tag: *tag, explicit: false, ver: 1, orig_len: d.len() as u32, tlen: Some(x.len() as u32), data: x }
+            } else {
+                let ver = if name == "glyf" || name == "loca" { 3 } else { 0 };
+                DirTable { tag: *tag, explicit: false, ver, orig_len: d.len() as u32, tlen: None, data: d.clone() }
+            }
+        })
+        .collect();
+    let bytes = enc::assemble_single(&tables, 0x00010000, 65536);
+    println!("{}", json!({"hmtx_transform_with_null_glyf_transform": format!("{:?}", obs::decode_tables(&bytes, 0, &[]).map(|t| t.len()))}));
+}
+
 fn main() {
     if let Err(e) = brotli::self_test() {
         eprintln!("{}", e);
@@ -723,6 +747,7 @@ fn main() {
     match args.get(1).map(|s| s.as_str()) {
         Some("replay") => replay(&args[2], &args[3]),
         Some("record") => record(args[2].parse().expect("seed"), &args[3], &args[4]),
+        Some("probe") => probe(),
         _ => {
             eprintln!("usage: c11_woff2 replay <cases> <mismatches> | record <seed> <quick|thorough> <trace>");
             std::process::exit(2);
